@@ -85,19 +85,26 @@ pub fn class_of(c: char) -> &'static str {
     }
 }
 
-/// one member of a class (seeded)
+static CYCLE: std::sync::atomic::AtomicUsize = std::sync::atomic::AtomicUsize::new(0);
+
+/// all members of the small control classes, visited round-robin so that every one of them is
+/// exercised within a few dozen instantiations
+fn cycle(members: &[char]) -> char {
+    let n = CYCLE.fetch_add(1, std::sync::atomic::Ordering::Relaxed);
+    members[n % members.len()]
+}
+
+/// one member of a class (seeded; the small control classes round-robin)
 pub fn member(class: &str, rng: &mut impl Rng) -> char {
     match class {
         "Q" => '"',
         "B" => '\\',
         "N" => '\n',
-        "E" => ['\u{8}', '\u{c}', '\r', '\t'][rng.gen_range(0..4)],
-        "C" => loop {
-            let c = char::from_u32(rng.gen_range(0..0x20)).unwrap();
-            if class_of(c) == "C" {
-                break c;
-            }
-        },
+        "E" => cycle(&['\u{8}', '\u{c}', '\r', '\t']),
+        "C" => {
+            let all: Vec<char> = (0u32..0x20).filter_map(char::from_u32).filter(|c| class_of(*c) == "C").collect();
+            cycle(&all)
+        }
         "D" => '\u{7f}',
         "n" => 'n',
         "u" => 'u',
